@@ -26,7 +26,8 @@ impl ItemSourceKind {
         match self {
             ItemSourceKind::Struct => {
                 let member = field.member();
-                quote_spanned!(span=> (self.#member))
+                let this = quote!(self);
+                quote_spanned!(span=> (#this.#member))
             }
             ItemSourceKind::Enum => {
                 let ident = field.make_ident("_self");
@@ -39,7 +40,8 @@ impl ItemSourceKind {
         match self {
             ItemSourceKind::Struct => {
                 let member = field.member();
-                quote_spanned!(span=> (this.#member))
+                let this = quote!(this);
+                quote_spanned!(span=> (#this.#member))
             }
             ItemSourceKind::Enum => {
                 let ident = field.make_ident("_this");
@@ -52,7 +54,8 @@ impl ItemSourceKind {
         match self {
             ItemSourceKind::Struct => {
                 let member = field.member();
-                quote_spanned!(span=> (other.#member))
+                let other = quote!(other);
+                quote_spanned!(span=> (#other.#member))
             }
             ItemSourceKind::Enum => {
                 let ident = field.make_ident("_other");
@@ -788,7 +791,8 @@ fn build_hash_expr(
     }
 
     *field_used = true;
-    Ok(quote_spanned!(field.span()=> ::core::hash::Hash::hash(&(#this), state);))
+    let state = quote!(state);
+    Ok(quote_spanned!(field.span()=> ::core::hash::Hash::hash(&(#this), #state);))
 }
 
 pub(super) struct HelperAttributesForCompareOp {
@@ -1105,7 +1109,8 @@ impl Template {
 
     fn build_hash_stmt(&self, this: TokenStream) -> TokenStream {
         let this = self.apply(this);
-        quote_spanned!(this.span()=> ::core::hash::Hash::hash(&(#this), state);)
+        let state = quote!(state);
+        quote_spanned!(this.span()=> ::core::hash::Hash::hash(&(#this), #state);)
     }
 }
 fn build_to_index_fn(variants: &[VariantEntry]) -> TokenStream {
